@@ -1212,6 +1212,21 @@ def rule_decl_roundtrip(chk, prefix="C09.decl"):
             "is_volatile": False, "body": body, "attributes": []}) for ra in ([], [A("target")]) for ps in ([], two_params[:1], two_params)
             for body in (opt(None), opt([]), opt([stmt("Expression", E("e")), stmt("Return", opt(loc(E("r"))))]))]),
     }
+    # declarators walked for real (format_declarator / parse_declarator): the trees the parser can produce - pointers and
+    # references outside, arrays around the name - alone in a declaration and next to a second declarator (the printer
+    # places its spaces differently in the two cases)
+    name_ = lambda s_: I.Enum("Declarator", "Identifier", {"0": I.Enum("ScopedIdentifier", None, {"base": I.Enum("ScopedIdentifierBase", "Relative"), "identifiers": [loc(s_)]}), "1": []})
+    arr = lambda inner, size=None: I.Enum("Declarator", "Array", {"0": I.Enum("ArrayDeclarator", None, {"inner": inner, "array_size": opt(None if size is None else loc(E(size))), "attributes": []})})
+    quals = lambda *q: I.Enum("TypeModifierSet", None, {"modifiers": [loc(I.Enum("TypeModifier", x)) for x in q]})
+    ptr = lambda inner, *q: I.Enum("Declarator", "Pointer", {"0": I.Enum("PointerDeclarator", None, {"attributes": [], "qualifiers": quals(*q), "inner": inner})})
+    ref = lambda inner: I.Enum("Declarator", "Reference", {"0": I.Enum("ReferenceDeclarator", None, {"attributes": [], "inner": inner})})
+    rdecl = lambda d, init=None: I.Enum("InitDeclarator", None, {"declarator": d, "location_annotations": [], "init": opt(init)})
+    shapes = [lambda: name_("a"), lambda: arr(name_("a")), lambda: arr(name_("a"), "n"), lambda: arr(arr(name_("a"), "n"), "m"), lambda: ptr(name_("a")), lambda: ptr(name_("a"), "Const"),
+              lambda: ptr(name_("a"), "Volatile"), lambda: ptr(name_("a"), "Const", "Volatile"), lambda: ptr(ptr(name_("a"), "Const")), lambda: ptr(ptr(name_("a")), "Const"),
+              lambda: ptr(arr(name_("a"), "n"), "Const"), lambda: ref(name_("a")), lambda: ref(arr(name_("a"))), lambda: ptr(ref(name_("a")), "Const")]
+    cases["declarator"] = ("format_variable_definition", "parse_vardef", [I.Enum("VarDef", None, {"local_type": T("int"), "defs": ds}) for mk in shapes for ds in (
+        [rdecl(mk())], [rdecl(mk(), iexpr("v"))], [rdecl(mk()), rdecl(name_("z"))], [rdecl(name_("z")), rdecl(mk(), iexpr("v"))])])
+    REAL = {"declarator": ("format_declarator", "parse_declarator")}
     n = 0
     for name, (ff, pf, vals) in cases.items():
         fb, pb = f.fn(ff, PP.FMT), f.fn(pf, PP.PAR)
@@ -1221,7 +1236,7 @@ def rule_decl_roundtrip(chk, prefix="C09.decl"):
         bad = None
         unread = None
         for v in vals:
-            r = PP.roundtrip(f, fb, pb, v)
+            r = PP.roundtrip(f, fb, pb, v, real=REAL.get(name, ()))
             if r[0] == "unreadable":
                 unread = unread or "%s: %s" % (r[1], r[2])
                 continue
